@@ -372,7 +372,7 @@ impl<F: Family> DynFamily for F {
             let fam = Family::name(self).to_string();
             std::thread::spawn(move || {
                 while !done.load(Ordering::Relaxed) {
-                    std::thread::sleep(std::time::Duration::from_millis(500));
+                    std::thread::sleep(std::time::Duration::from_millis(50));
                     for slot in &inflight.slots {
                         let g = slot.lock().unwrap();
                         if let Some((t, case)) = g.as_ref() {
